@@ -140,6 +140,14 @@ ITEMS = [
      "    fn f<G: Send + 'static>(e: happylock::poisonable::TryLockPoisonableError<'static, G>) { std::thread::spawn(move || drop(e)); }",
      "    fn f<G: Send + 'static>(e: happylock::poisonable::TryLockPoisonableError<'static, G>) { drop(e); }",
      'negb (impl_auto all_rules (mkrf true true true true) MSend (TCon "TryLockPoisonableError" (TPay true true)))', ["E0277"], None),
+    ("raw_lock_without_key", "C14", "taking a mutex through its raw lock (lock_api's lock() is a safe function) while keeping the key, then locking another one with it",
+     KEY + M + "    let r = m.raw();\n    lock_api::RawMutex::lock(r);\n    let g = m2.lock(key);",
+     KEY + M + "    let r = unsafe { m.raw() };\n    lock_api::RawMutex::lock(r);\n    let g = m2.lock(key);",
+     "k10", ["E0133"], None),
+    ("guard_factory_without_key", "C14", "a collection's guard factory called from safe code: data without key and without hold",
+     M + "    let c = LockCollection::new((m, m2));\n    let g = happylock::lockable::Lockable::guard(&c);",
+     M + "    let c = LockCollection::new((m, m2));\n    let g = unsafe { happylock::lockable::Lockable::guard(&c) };",
+     "k10", ["E0133"], None),
     ("collection_guard_field_moved_out", "C14", "moving the holds out of a collection guard through its field (the key is dropped, the holds live on)",
      KEY + "    let c = LockCollection::new((Mutex::new(1), Mutex::new(2)));\n    let holds = c.lock(key).guard;\n    let k2 = ThreadKey::get();",
      KEY + "    let c = LockCollection::new((Mutex::new(1), Mutex::new(2)));\n    let g = c.lock(key);\n    drop(g);\n    let k2 = ThreadKey::get();",
